@@ -14,6 +14,9 @@ pub mod integration_tests;
 #[cfg(feature="python_wrapper")]
 pub mod python_wrapper;
 
+#[cfg(feature="verif_hooks")]
+pub mod verif_hooks;
+
 pub use model::Statement;
 pub use execution::execution_engine::ExecutionEngine;
 pub use data_model::Tables;
